@@ -625,7 +625,11 @@ class UserTrackingManager:
 
         username = tracked_user.user.name
         try:
-            await self._network.send_server_messages(AddUser.Request(username))
+            # Shielded: when sending fails the connection gets closed from
+            # within the send, which cancels and waits for this task. The
+            # cancellation may not be passed on to (and wait for) that send
+            await asyncio.shield(
+                self._network.send_server_messages(AddUser.Request(username)))
 
         except Exception:
             return RETRY_TIMEOUT_NET_ERROR, "failed to send tracking message", None
@@ -651,7 +655,9 @@ class UserTrackingManager:
     async def _request_untracking(self, tracked_user: TrackedUser):
         username = tracked_user.user.name
         try:
-            await self._network.send_server_messages(RemoveUser.Request(username))
+            # Shielded for the same reason as the tracking request
+            await asyncio.shield(
+                self._network.send_server_messages(RemoveUser.Request(username)))
 
         except Exception as exc:
             logger.debug(
@@ -728,7 +734,7 @@ class UserTrackingManager:
         if event.state == ConnectionState.CLOSED:
             tasks = self.stop()
             if tasks:
-                await asyncio.gather(*self.stop(), return_exceptions=True)
+                await asyncio.gather(*tasks, return_exceptions=True)
 
     def stop(self) -> list[asyncio.Task]:
         tasks = []
